@@ -67,6 +67,8 @@ fn main() {
                 "C02" => ops_codec::gen_c02(&mut r, thorough, &mut out),
                 "C03" => ops_codec::gen_c03(&mut r, thorough, &mut out),
                 "C16" => ops_schema::gen_c16(&mut r, thorough, &mut out),
+                "C15" => ops_schema::gen_c15(&mut r, thorough, &mut out),
+                "C19" => ops_schema::gen_c19(&mut r, thorough, &mut out),
                 "C08" => ops_acc::gen_acc(&mut r, thorough, false, &mut out),
                 "C09" => ops_acc::gen_acc(&mut r, thorough, true, &mut out),
                 "C05" => ops_frame::gen_c05(&mut r, thorough, &mut out),
